@@ -215,6 +215,11 @@ def decide(prop: str, vres: dict, kani: dict, tier: str, seed: int, t0: float, m
             if f.get('fn') in fns_serving:
                 undecided.append('proof hint no longer verifies in %s: %s' % (f.get('fn'), (f.get('site_text') or '')[:100]))
             continue
+        if f['class'] == 'rlimit' and f.get('fn') in fns_serving:
+            # the solver gave up inside this function: none of its obligations is decided on this tree, whichever way the function
+            # serves this property (labelled clause, safety / termination / io class): undecided, never pass and never alarm
+            undecided.append('resource limit in %s' % f.get('fn'))
+            continue
         ps, why = failure_props(f, fi)
         raw_ = (fi or {}).get('raw_transfers') or []
         if prop == 'C10' and raw_ and f['class'] in ('post', 'inv-end', 'inv-init', 'assert') and prop not in ps:
